@@ -273,9 +273,20 @@ def run_filter(excutils, c):
 
 
 def run_remove(fileutils, excutils, c, workdir):
+    import shutil
     path = os.path.join(workdir, 'c09_remove_target')
-    with open(path, 'w') as fh:
-        fh.write('x')
+    for p in (path,):
+        if os.path.islink(p) or os.path.isfile(p):
+            os.unlink(p)
+        elif os.path.isdir(p):
+            shutil.rmtree(p)
+    if c['path'] == 'file':
+        with open(path, 'w') as fh:
+            fh.write('x')
+    elif c['path'] == 'dangling_symlink':
+        os.symlink(os.path.join(workdir, 'no_such_target'), path)
+    elif c['path'] == 'directory':
+        os.mkdir(path)
     original = Plain('orig') if c['body'] != 'raises_base_exception' else MyBase('orig')
     rm_err = OSError(13, 'scripted remove failure')
     removed = {'v': False}
@@ -284,7 +295,8 @@ def run_remove(fileutils, excutils, c, workdir):
         removed['v'] = True
         if c['remove'] == 'raises':
             raise rm_err
-        os.unlink(p)
+        if os.path.islink(p) or os.path.isfile(p):
+            os.unlink(p)
     logger = FakeLogger()
     import logging
     root = logging.getLogger()
@@ -300,8 +312,6 @@ def run_remove(fileutils, excutils, c, workdir):
             propagated = e
     finally:
         root.error = saved_error
-    if os.path.exists(path):
-        os.unlink(path)
     if propagated is None:
         p = 'none'
     elif propagated is original:
